@@ -21,6 +21,7 @@ type kase struct {
 	Quote  string `json:"quote"`
 	Prefix string `json:"prefix_quoted"`
 	Datum  string `json:"datum_quoted"`
+	Helper string `json:"helper_first_prefix_quoted,omitempty"`
 	Cond   bool   `json:"conditional_prefix,omitempty"`
 	C      bool   `json:"C,omitempty"`
 	D      bool   `json:"D,omitempty"`
@@ -55,6 +56,10 @@ func replay(c *core.Ctx, raw json.RawMessage) error {
 	var k kase
 	if err := json.Unmarshal(raw, &k); err != nil {
 		return err
+	}
+	if k.Helper != "" {
+		checkHelper(c, k.Target, util.Unq(k.Helper), util.Unq(k.Prefix), util.Unq(k.Datum))
+		return nil
 	}
 	if k.Cond {
 		checkCond(c, k.Target, util.Unq(k.Prefix), k.C, k.D, util.Unq(k.Datum))
@@ -352,7 +357,80 @@ func checkCond(c *core.Ctx, ti int, prefixTmpl string, cv, dv bool, datum string
 	}
 }
 
+// checkHelper: one helper template interpolates the datum at two call sites with different
+// static prefixes (the first is analysed first); the datum at the second call site must be
+// confined according to the second prefix.
+func checkHelper(c *core.Ctx, ti int, p1, p2, datum string) {
+	c.Eval(1)
+	t := targets[ti]
+	text := `{{define "val"}}{{.}}{{end}}<p><a href="` + p1 + `{{template "val" .X}}">x</a>` + t.open + t.attr + `="` + p2 + `{{template "val" .X}}"` + t.close + `</p>`
+	k := kase{Target: ti, Quote: `"`, Prefix: util.Q(p2), Datum: util.Q(datum), Helper: util.Q(p1)}
+	r := tx.Run(text, map[string]interface{}{"X": datum})
+	if r.Panic != nil || r.ParseErr != nil || r.ExecErr != nil {
+		c.Hist("helper_result", tx.ErrClass(r.ExecErr))
+		return
+	}
+	c.Hist("helper_result", "ok")
+	c.DistinctS("helper", fmt.Sprint(ti), p1, p2, datum)
+	res := htmltok.Tokenize(r.Out, htmltok.Options{})
+	dec, found, n := "", false, 0
+	for i := range res.Tokens {
+		tk := &res.Tokens[i]
+		if tk.Type != htmltok.StartTag {
+			continue
+		}
+		if n++; n != 3 {
+			continue
+		}
+		for _, a := range tk.Attrs {
+			if a.Name == t.attr {
+				dec, found = htmltok.DecodeAttrValue(a.Value), true
+			}
+		}
+	}
+	pdec := htmltok.DecodeAttrValue(p2)
+	if !found || !strings.HasPrefix(dec, pdec) {
+		c.Violation(k, "helper called after %q and after %q: decoded value %+q of the second call site does not start with its prefix", p1, p2, dec)
+		return
+	}
+	f := dec[len(pdec):]
+	if rej, why := mustReject(t, p2); rej && p2 != "" {
+		c.Violation(k, "helper called after %q and then after %q, which %s: accepted, output %+q", p1, p2, why, r.Out)
+		return
+	}
+	if p2 != "" && (t.tru || strings.ContainsAny(pdec, "?#")) {
+		if !unreservedOrPct(f) || pctDecode(f) != datum {
+			c.Violation(k, "helper called after %q and then after %q: the datum %+q was emitted as %+q at the second call site, which is not its full percent-encoding: %+q", p1, p2, datum, f, r.Out)
+		}
+		return
+	}
+	if p2 != "" {
+		for i := 0; i < len(f); i++ {
+			if b := f[i]; b <= 0x20 || b >= 0x7f || b == '"' || b == '\'' || b == '<' || b == '>' || b == '\\' {
+				c.Violation(k, "helper called after %q and then after %q: the datum %+q was emitted as %+q at the second call site", p1, p2, datum, f)
+				return
+			}
+		}
+	}
+}
+
 func run(c *core.Ctx) {
+	// one helper, two call sites
+	hp := []string{"/p/", "/search?q=", "/p#", "https://example.com/", "/a?x=1&amp;y=", "/x/.", "mailto:"}
+	hi := 0
+	for ti := range targets {
+		for _, p1 := range hp {
+			for _, p2 := range hp {
+				hi++
+				if !c.Mine(hi) {
+					continue
+				}
+				for _, d := range []string{"v&admin=1#frag", "a b/../c", "x?y=z", "%41%zz", "\"'<>"} {
+					checkHelper(c, ti, p1, p2, d)
+				}
+			}
+		}
+	}
 	// conditional prefixes
 	branches := []string{"/p/", "/p?q=", "/p#", "https://example.com/", "/a/b?x=1&amp;y=", "", "/p/"}
 	ci := 0
